@@ -61,6 +61,10 @@ func (fv *FV) evalCall(st *State, c *ast.CallExpr) []Term {
 		}
 	}
 	if callee != nil {
+		if full := callee.FullName(); full == "(*sync.Mutex).Lock" || full == "(*sync.Mutex).Unlock" {
+			fv.lockOp(st, callee.Name(), recvExpr, c)
+			return nil
+		}
 		if recvExpr != nil {
 			r := fv.evalExpr(st, recvExpr)
 			// method with pointer receiver called on addressable value etc.: only pointer/plain supported
@@ -632,6 +636,9 @@ func (fv *FV) callByContract(st *State, fc *FuncContract, pc *PkgContracts, osig
 	if recv != nil && osig.Recv() != nil && osig.Recv().Name() != "" {
 		env.names[osig.Recv().Name()] = *recv
 	}
+	if recv != nil {
+		env.names["self"] = *recv
+	}
 	for i := 0; i < osig.Params().Len() && i < len(args); i++ {
 		if n := osig.Params().At(i).Name(); n != "" && n != "_" {
 			env.names[n] = args[i]
@@ -879,6 +886,16 @@ func (fv *FV) modTarget(env *Env, e SExpr) []modTarget {
 			at := fv.yieldArgType(f)
 			out = append(out, modTarget{key: fv.callsComp("arg", fv.sortOf(at))})
 			return out
+		case "trace":
+			id, ok := x.Args[0].(*SIdent)
+			if !ok {
+				fv.sfail("modifies trace(NAME)")
+			}
+			var out []modTarget
+			for _, k := range fv.traceComps([]string{"trace", id.Name}) {
+				out = append(out, modTarget{key: k})
+			}
+			return out
 		case "mapof":
 			m := fv.spec(env, x.Args[0])
 			return fv.mapTargets(m)
@@ -893,6 +910,14 @@ func (fv *FV) modTarget(env *Env, e SExpr) []modTarget {
 		}
 	case *SField:
 		p := fv.spec(env, x.X)
+		if named, ok := types.Unalias(p.T).(*types.Named); ok {
+			if _, isIface := named.Underlying().(*types.Interface); isIface {
+				if gt := fv.ghostField(named, x.Name); gt != "" {
+					fv.ghostFieldTerm(env.st, named, x.Name, gt, p)
+					return []modTarget{{key: "F:" + shortPkg(pkgPathOf(named.Obj())) + "." + named.Obj().Name() + "." + x.Name + "$ghost", ref: p.S}}
+				}
+			}
+		}
 		pt, ok := p.T.Underlying().(*types.Pointer)
 		if !ok {
 			fv.sfail("modifies %s: not a pointer field", specString(e))
@@ -1042,6 +1067,8 @@ func (fv *FV) applyRole(st *State, role string, f Term, args []Term, pos token.P
 	case "report":
 		// report GHOSTMAP KEYFUNC: f(v, pos) records pos for key(v) when f is a reporter
 		return fv.applyReport(st, rf, f, args, pos)
+	case "pure":
+		return []Term{fv.pureApp(f, args)}
 	case "havoc":
 		return nil
 	case "trace":
@@ -1049,4 +1076,46 @@ func (fv *FV) applyRole(st *State, role string, f Term, args []Term, pos token.P
 	}
 	fv.fail(pos, "unknown role %q", role)
 	return nil
+}
+
+// lockOp: x.mu.Lock() / x.mu.Unlock() on the mutex field of the object x. The monitor is tracked by the ghost
+// component held[x]; guarded fields may only be touched while it is set.
+func (fv *FV) lockOp(st *State, op string, recvExpr ast.Expr, c *ast.CallExpr) {
+	se, ok := ast.Unparen(recvExpr).(*ast.SelectorExpr)
+	if !ok {
+		fv.fail(c.Pos(), "mutex operation on %s", fv.src(recvExpr))
+	}
+	owner := fv.evalExpr(st, se.X)
+	fv.compSort["L:held"] = arr(sInt, sBool)
+	held := fv.heapGet(st, "L:held")
+	fv.assumptions["sync.Mutex: Lock/Unlock are modelled by the ghost flag held[object]; mutual exclusion and the happens-before edges of the Go memory model are assumed"] = true
+	if op == "Lock" {
+		fv.oblige(st, "lock.notheld["+fv.src(c)+"]", not(sel(held, owner.S)), "the mutex is not acquired twice (self-deadlock)", nil, c.Pos())
+		fv.heapSet(st, "L:held", sto(held, owner.S, "true"))
+		return
+	}
+	fv.oblige(st, "lock.held["+fv.src(c)+"]", sel(held, owner.S), "Unlock of a mutex that is held", nil, c.Pos())
+	fv.heapSet(st, "L:held", sto(held, owner.S, "false"))
+}
+
+// guardCheck: reading or writing a field guarded by the object's mutex requires the mutex to be held.
+func (fv *FV) guardCheck(st *State, base Term, field string, what string, pos token.Pos) {
+	pt, ok := base.T.Underlying().(*types.Pointer)
+	if !ok {
+		return
+	}
+	named, _ := structOf(pt.Elem())
+	if named == nil {
+		return
+	}
+	pc := fv.w.contracts[pkgPathOf(named.Obj())]
+	if pc == nil {
+		return
+	}
+	for _, g := range pc.Guards[named.Obj().Name()] {
+		if g == field {
+			fv.compSort["L:held"] = arr(sInt, sBool)
+			fv.oblige(st, "lock.guard["+what+"]", sel(fv.heapGet(st, "L:held"), base.S), "field "+field+" is accessed only while the mutex is held: "+what, nil, pos)
+		}
+	}
 }
